@@ -10,13 +10,13 @@ def _bt_partition_laws(ctx):
     return bounded_text.partition_laws(ctx)
 
 BOUNDED = [_bt_partition_laws, hub_bounded('C17-html-hub', ['forms', 'ranges', 'dir', 'iframe', 'identical', 'basic', 'svg5', 'xforms'], ['html'])]
-TRUSTED = [A_PY, A_BS4, OPAQUE_NOTE, A_INDET, A_SINGLE]
+TRUSTED = [A_PY, A_BS4, OPAQUE_NOTE, A_INDET, A_SINGLE, A_BIDI]
 ASSUMPTIONS = TRUSTED
 EXPLANATION = ('Bounded: the partition laws as set identities and every HTML state pseudo-class against the reference definitions (first submit button per form, radio groups '
                'by form or document, directionality, placeholder, ranges, iframe boundary) on form/fieldset/iframe documents. Proved: hub, iframe-aware parent walk, is_root, match_default (first submit button of the form owner, memo table), '
-               'match_indeterminate == "no radio button of the same name under the same form owner (nearest HTML form, else the top of the document) is checked", with its memo table under the invariant indet_cache_ok.')
+               'match_indeterminate == "no radio button of the same name under the same form owner (nearest HTML form, else the top of the document) is checked", with its memo table under the invariant indet_cache_ok; match_dir == the HTML directionality algorithm dir_of (own dir, root and tel defaults, dir=auto by first strong character of the value or of the consulted text via find_bidi, otherwise the parent\'s), both recursions terminating.')
 LEVEL_TEXT = EXPLANATION
-TECHNIQUE = 'contract-based deductive verification (VCs from the real AST, z3/cvc5) for :default, :indeterminate, ranges and placeholder (memo tables under an object invariant); bounded evaluation for :dir() and the partition laws'
+TECHNIQUE = 'contract-based deductive verification (VCs from the real AST, z3/cvc5) for :default, :indeterminate, ranges and placeholder (memo tables under an object invariant) and :dir() (recursion over ancestors and over the consulted subtree, with measures); bounded evaluation for the partition laws'
 MUSTFAIL_PER_FN = {'quick': 1, 'thorough': 4}
 
 FUNCTIONS = FUNCTIONS + ['soupsieve.css_match.CSSMatch.match_range', 'soupsieve.css_match._DocumentNav.get_attribute_by_name']
@@ -26,6 +26,6 @@ FUNCTIONS = FUNCTIONS + [q for q in KIDS if q not in FUNCTIONS]
 
 VALIDATION = [validate_bs4]
 
-FUNCTIONS = FUNCTIONS + [q for q in CACHE + INDET if q not in FUNCTIONS]
+FUNCTIONS = FUNCTIONS + [q for q in CACHE + INDET + DIRFN if q not in FUNCTIONS]
 STRUCTURAL = (globals().get('STRUCTURAL') or []) + [indet_structural]
 SHARDS = dict(SHARDS)
